@@ -7,12 +7,12 @@ from typing import Any
 
 from harness.common import Ck
 from harness.c07_util import World
-from translate import c07_index_sites
+from translate import c07_index_sites, c07_index_shapes
 
 MANIFEST = dict(
-    technique='Rocq proof (index invariant preserved by every operation, by induction over operation sequences on several maps; search() sound and complete; worldspawn pinned) + ast census of Entity._keys writers and index update sites + vm_compute operation-sequence correspondence + scan oracle on real VMF objects',
-    text='Theorems in Props/C07.v about SM/IndexModel.v (entity list, spawn, per-entity key lists with case-insensitive first-spelling-wins lookup, by_class/by_target as maps from folded key to sets of entities): the invariant "every index entry equals the scan of entities+worldspawn under the current folded classname / targetname (\'\' -> None), the worldspawn has class worldspawn and is listed under it" holds for VMF(), for VMF.parse of any tree, is preserved by every operation (create_ent/add_ent/add_ents/remove_ent, Entity(), copy, []=, del (single and tuple), pop, popitem, setdefault, update, clear, make_unique, export) whatever its arguments and whether or not it raises, hence after every finite history over any number of maps; search() returns exactly the matching entities. The model is of the repaired maintenance code (8 fix commits). It is tied to vmf.py on every run by a fail-closed census (every writer of Entity._keys and every by_class/by_target update site is a modelled function, every index key is folded, every Entity-side add is guarded by membership) and by an operation-sequence correspondence that compares, after every step, error code, entity list, all key lists and both indexes of the model (vm_compute) with real VMF objects; a scan oracle checks the property directly on the implementation after every step, including iteration of the indexes while mutating them.',
-    note='Trusted: Coq kernel + vm_compute, translate/c07_index_sites.py, the hand model SM/IndexModel.v (tied by the correspondence), CPython. str.casefold is a parameter of the model; theorems assume it fixes the empty string and the literals classname/targetname/worldspawn (and is idempotent, for search). Not modelled: nodeid processing (C08), conversion of non-string values (conv_kv), Entity.keys setter (clear+update), termination of the make_unique loop (fuel; invariant holds either way), CopySet iteration (searched: iterate-while-mutating histories never raise and leave the indexes right). Out of domain: add_ent of the worldspawn object or of an entity created for another VMF.',
+    technique='Rocq proof (index invariant preserved by every operation incl. defaultdict reads, by induction over operation sequences on several maps; search() sound and complete both for the hand model and for every program shape that passes the generated obligations; make_unique loop termination by pigeonhole; CopySet iteration total and exception-free under arbitrary mutation; worldspawn pinned) + two fail-closed ast translators (census of writers/escapes/key sources; shapes of Entity.__setitem__, VMF.search, CopySet.__iter__) + vm_compute correspondences (operation sequences, search, search as written, iteration traces) + scan oracle on real VMF objects',
+    text='Theorems in Props/C07.v about SM/IndexModel.v (entity list, spawn, per-entity key lists with case-insensitive first-spelling-wins lookup, by_class/by_target as maps from folded key to sets of entities, possibly holding empty sets left by defaultdict reads): the invariant "every index entry equals the scan of entities+worldspawn under the current folded classname / targetname (\'\' -> None), the worldspawn has class worldspawn and is listed under it" holds for VMF(), for VMF.parse of any tree, is preserved by every operation (create_ent/add_ent/add_ents/remove_ent, Entity(), copy between maps, []=, del (single and tuple), pop, popitem, setdefault, update, clear, make_unique, export, reading by_class[k]/by_target[k]) whatever its arguments and whether or not it raises, hence after every finite history over any number of maps; search() returns exactly the matching entities. Round 2: the decisive code is modelled from its source shape, regenerated on every run: (1) the lookup loop of Entity.__setitem__ (which key spelling fetches the previous value and stores the new one, before/after the store) - every shape passing five named obligations equals the hand model for all inputs, the caller-spelling and read-after-store shapes are refuted; (2) VMF.search as a program over real defaultdict semantics (reads insert empty sets, `in` sees them) - every program passing the obligations returns exactly the specified entities and leaves a state no reader can distinguish, the if/elif shape is refuted; (3) CopySet.__iter__ as a generator program - no RuntimeError for any loop body, exactly |snapshot|+|late| yields, each element once, invariant kept when the body applies arbitrary operations; plain set iteration refuted; (4) the make_unique while-True loop ends within the model\'s fuel (n+1 candidates, n keys; candidates distinct after folding) and returns the first unused name; make_unique never raises. Tied to vmf.py on every run by the fail-closed census (writers of Entity._keys, escapes of the dict, writers of VMF.entities/VMF.spawn, every index update: key folded, value read from the filed entity\'s own classname/targetname, adds guarded by membership), the shape obligations, and correspondences comparing, after every step, error code, entity list, key lists and both indexes of the model with real VMF objects, search results (hand model and program as written) and the yield traces of index iterations with mutating bodies; a scan oracle checks the property directly on the implementation after every step.',
+    note='Trusted: Coq kernel + vm_compute, translate/c07_index_sites.py, translate/c07_index_shapes.py, the hand model SM/IndexModel.v (tied by the correspondences and, for __setitem__/search/CopySet.__iter__, by translator-generated shapes proved equal to it), CPython. No axioms. str.casefold is a parameter of the model; theorems assume it fixes the empty string and the literals classname/targetname/worldspawn, is idempotent (search), and distributes over an appended decimal number (make_unique termination) - all proved for ASCII lower-casing, true of str.casefold. Not modelled: nodeid processing (C08), conversion of non-string values (conv_kv), Entity.keys setter (clear+update), laziness/order/multiplicity of search() results, the empty sets that make_unique and iteration leave in the implementation\'s defaultdicts (shown irrelevant: ix_equiv). Non-ASCII names only in the oracle stream. Out of domain: add_ent of the worldspawn object or of an entity created for another VMF, writing through the dict returned by the deprecated Entity.keys property.',
 )
 
 NAMES = ['a', 'A', 'Ab', 'aB', '', 'a1', 'worldspawn']
@@ -21,6 +21,7 @@ CN_KEYS = ['classname', 'classname', 'Classname', 'CLASSNAME']
 TN_KEYS = ['targetname', 'targetname', 'TargetName', 'TARGETNAME']
 OTHER_KEYS = ['origin', 'Origin', 'x']
 QUERIES = ['a', 'A', 'ab', 'AB', 'a*', 'A*', '*', '', 'a1', 'worldspawn', 'WORLDSPAWN', 'ab*', 'info_null', 'b']
+QUERIES_SH = ['a', 'A*', 'ab', 'worldspawn', '']
 MAX_OBJS = 6
 MODEL_DIGESTS: dict = {'CopySet.__iter__': '18a885efeefc', '_remove_copyset': '590e345663d7', 'VMF.search': '8cbe23d1283f',
                        'Entity.make_unique': '11a000401c4a'}
@@ -78,8 +79,10 @@ def gen_ops(rng: random.Random, n: int, names=NAMES, allow_iter: bool = True) ->
             return ('rem', rng.random() < 0.5)
         if r < 0.85:
             return ('pop', _key(rng))
-        if r < 0.93:
+        if r < 0.90:
             return ('clear',)
+        if r < 0.95:
+            return ('spawn_like',)
         return ('uniq', rng.choice(names))
 
     while len(ops) < n:
@@ -146,7 +149,13 @@ def gen_ops(rng: random.Random, n: int, names=NAMES, allow_iter: bool = True) ->
             e = pick_ent(m)
             if e is not None:
                 ops.append(('uniq', m, e, rng.choice(names)))
-        elif r < 0.955:
+        elif r < 0.948:
+            which = rng.choice(['class', 'target'])
+            key = rng.choice(names)
+            if rng.random() < 0.6:
+                key = key.casefold()
+            ops.append(('probe', m, which, None if which == 'target' and key == '' else key))
+        elif r < 0.958:
             ops.append(('export', m))
         elif r < 0.975 and allow_iter:
             which = rng.choice(['class', 'target', 'search'])
@@ -228,7 +237,7 @@ def valid(ops) -> bool:
         elif k == 'adds':
             if any(e >= nobj[m] for e in op[2]):
                 return False
-        elif k in ('export', 'iter'):
+        elif k in ('export', 'iter', 'probe'):
             pass
         elif op[2] >= nobj[m]:
             return False
@@ -253,11 +262,24 @@ CORPUS = [
     [('create', 0, 'a', []), ('add', 0, 1), ('rem', 0, 1, False)],
     [('create', 0, 'a', [('targetname', 'Ab')]), ('create', 0, 'a', [('targetname', 'Ab')]), ('uniq', 0, 2, '')],
     [('create', 0, 'a', []), ('create', 0, 'a', []), ('iter', 0, 'class', 'a', ('set', 'classname', 'A'))],
+    # round 2: stored spelling differs from the caller's; a name equal to another entity's class; reads that
+    # leave empty sets behind (folded and un-folded keys) before searching
+    [('create', 0, 'a', [('TargetName', 'Ab')]), ('set', 0, 1, 'targetname', 'a1')],
+    [('new', 0, [('ClassName', 'Ab')]), ('add', 0, 1), ('set', 0, 1, 'classname', 'a')],
+    [('create', 0, 'a', []), ('create', 0, 'a1', [('targetname', 'A')])],
+    [('create', 0, 'a', []), ('probe', 0, 'target', 'a')],
+    [('create', 0, 'a', []), ('create', 0, 'A', [('targetname', 'ab')]), ('create', 0, 'a', []),
+     ('iter', 0, 'class', 'a', ('spawn_like',)), ('iter', 0, 'target', 'ab', ('spawn_like',)),
+     ('iter', 0, 'class', 'a', ('rem', True)), ('iter', 0, 'target', None, ('set', 'targetname', 'Ab'))],
+    [('create', 0, 'a', [('targetname', 'a')]), ('create', 0, 'a', [('targetname', 'A')]),
+     ('iter', 0, 'target', 'a', ('uniq', 'a')), ('iter', 0, 'class', 'a', ('set', 'classname', 'A')),
+     ('iter', 0, 'class', 'a', ('clear',))],
+    [('create', 0, 'ab', []), ('probe', 0, 'target', 'Ab'), ('probe', 0, 'class', 'AB'), ('probe', 0, 'target', None)],
 ]
 
 
 def search(ck: Ck) -> None:
-    n = 30000 if ck.thorough else ck.budget(1500, 10000)
+    n = 30000 if ck.thorough else ck.budget(1500, 4000)
     found: dict[str, tuple] = {}
     for i in range(n):
         if i < len(CORPUS):
@@ -325,6 +347,21 @@ Fixpoint first_bad (n : nat) (steps : list (wop * nat * exp)) (w : list mstate) 
       end
   end.
 Definition w2 : list mstate := [init; init].
+(* an iteration of by_class[k] / by_target[k] whose loop body ran the flat steps after position [pos]:
+   the yields must be the snapshot (any order) followed by the late additions (any order) *)
+Definition sort_nats (l : list nat) : list nat := foldr ins_nat [] l.
+Definition iter_ok (fl : list wop) (pos m : nat) (cls : bool) (kc : str) (kt : option str) (ys : list nat) : bool :=
+  let w0 := wrun ascii_fold (take (S pos) fl) w2 in
+  let getset (w : list mstate) : gset nat :=
+    match w !! m with
+    | Some st => if cls then ix_get (by_class st) kc else ix_get (by_target st) kt
+    | None => ∅
+    end in
+  let s0 := getset w0 in
+  let n0 := size s0 in
+  let w1 := wrun ascii_fold (take n0 (drop (S pos) fl)) w0 in
+  eqb_ln (sort_nats (take n0 ys)) (sorted_elems s0)
+  && eqb_ln (sort_nats (drop n0 ys)) (sorted_elems (getset w1 ∖ s0)).
 Definition sq (s : list nat) (q : str) (st : mstate) : bool := eqb_ln (sorted_elems (search ascii_fold q st)) s.
 """
 
@@ -383,6 +420,11 @@ def coq_wop(tab, op) -> str:
         o = f'MakeUnique {op[2]} {_strtab(tab, op[3])}'
     elif k == 'export':
         o = f'Export {_strtab(tab, "0")}'
+    elif k == 'probe':
+        if op[2] == 'class':
+            o = f'ProbeClass {_strtab(tab, op[3])}'
+        else:
+            o = 'ProbeTarget ' + ('None' if op[3] is None else f'(Some {_strtab(tab, op[3])})')
     else:
         raise AssertionError(op)
     return f'WOp {m} ({o})'
@@ -404,33 +446,60 @@ def observed_map(w: World, op) -> int:
     return op[1]
 
 
-def run_case(ops) -> tuple[list, list]:
-    """Run on the implementation; returns ([(flat_op, observed_map, err, obs)], [(map, query, sorted result)])."""
+RAISED: list = []
+
+
+def run_case(ops) -> tuple[list, list, list]:
+    """Run on the implementation; returns ([(flat_op, observed_map, err, obs)], [(map, query, sorted result)],
+    [(position of the probe step, map, which, key, [entities yielded])] for every index iteration)."""
     w = World(2)
     steps = []
+    iters = []
     for op in ops:
-        for flat, err in w.steps(op):
-            m = observed_map(w, flat)
-            steps.append((flat, m, err, w.observe(m)))
+        pos = len(steps)
+        try:
+            for flat, err in w.steps(op):
+                m = observed_map(w, flat)
+                steps.append((flat, m, err, w.observe(m)))
+        except Exception as exc:   # noqa: BLE001 - an exception escaping the API: the model has none, report as disagreement
+            RAISED.append((ops, f'{type(exc).__name__}: {exc}'))
+            break
+        if op[0] == 'iter' and op[2] in ('class', 'target') and not w.iter_truncated:
+            iters.append((pos, op[1], op[2], op[3], list(w.iter_yields)))
     queries = []
     for m in range(len(w.maps)):
         for q in QUERIES:
-            got = sorted({w.eid(m, e) for e in w.maps[m].search(q)})
+            try:
+                got = sorted({w.eid(m, e) for e in w.maps[m].search(q)})
+            except Exception as exc:   # noqa: BLE001
+                RAISED.append((ops, f'search({q!r}): {type(exc).__name__}: {exc}'))
+                got = [-1]
             queries.append((m, q, got))
-    return steps, queries
+    return steps, queries, iters
 
 
-def corr(ck: Ck, escalate: bool = False) -> None:
-    n = 2500 if ck.thorough else (1200 if (escalate or ck.tie_broken) else 240)
+PRE_SHAPES = r"""
+Definition sq2 (s : list nat) (q : str) (st : mstate) : bool :=
+  eqb_ln (sorted_elems (search_sh ascii_fold gen_search_shape q st).1) s.
+"""
+
+
+def corr(ck: Ck, escalate: bool = False, shapes: bool = False) -> None:
+    # quick tier with a broken tie: a larger random budget, but the exhaustive short histories stay in thorough
+    n = 2500 if ck.thorough else (600 if (escalate or ck.tie_broken) else 240)
     cases = []
+    RAISED.clear()
     seqs: list = list(CORPUS)
-    if ck.thorough or ck.tie_broken or escalate:
+    if ck.thorough:
         seqs += list(exhaustive_short())
     while len(seqs) < n:
         seqs.append(gen_ops(ck.rng, ck.rng.choice([3, 6, 12, 25, 40])))
     for ops in seqs:
-        steps, queries = run_case(ops)
-        cases.append((ops, steps, queries))
+        steps, queries, iters = run_case(ops)
+        cases.append((ops, steps, queries, iters))
+        ck.count('correspondence_index_iterations', len(iters))
+        for it in iters:
+            ck.hist('corr_iter_yields', len(it[4]))
         ck.count('correspondence_sequences')
         ck.count('correspondence_steps', len(steps))
         ck.hist('corr_len', len(steps) // 10 * 10)
@@ -445,7 +514,9 @@ def corr(ck: Ck, escalate: bool = False) -> None:
     ck.sample({'correspondence_ops': cases[len(CORPUS)][0][:6], 'impl_observation_after_last_step': cases[len(CORPUS)][1][-1][3] if cases[len(CORPUS)][1] else None})
     bad: list[tuple[int, Any]] = []
     bad_q: list[tuple[int, Any]] = []
-    B = 120
+    bad_i: list[tuple[int, Any]] = []
+    bad_q2: list[tuple[int, Any]] = []
+    B = min(120, max(40, -(-len(cases) // 6)))     # quick: 6 parallel batches
     from concurrent.futures import ThreadPoolExecutor
     from harness.common import parse_coq_nested
 
@@ -454,16 +525,34 @@ def corr(ck: Ck, escalate: bool = False) -> None:
         tab: dict[str, str] = {}
         lits = []
         qlits = []
-        for ops, steps, queries in part:
+        ilits = []
+        q2lits = []
+        for ops, steps, queries, iters in part:
             lits.append('[' + '; '.join(f'({coq_wop(tab, f)}, {m}, {coq_exp(tab, err, obs)})' for f, m, err, obs in steps) + ']')
             flat_ops = '[' + '; '.join(coq_wop(tab, f) for f, _m, _e, _o in steps) + ']'
             qs = ' && '.join(f'match w !! {m} with Some st => sq {_c_nats(r)} {_strtab(tab, q)} st | None => false end'
                              for m, q, r in queries)
+            if shapes:   # VMF.search as written (generated program over the defaultdict semantics), 5 of the queries
+                qs2 = ' && '.join(f'match w !! {m} with Some st => sq2 {_c_nats(r)} {_strtab(tab, q)} st | None => false end'
+                                  for m, q, r in queries if q in QUERIES_SH)
+                q2lits.append(f'(let w := wrun ascii_fold {flat_ops} w2 in {qs2})')
             qlits.append(f'(let w := wrun ascii_fold {flat_ops} w2 in {qs})')
-        pre = PRE + ''.join(f'Definition {name} : str := {_coq_str(s)}.\n' for s, name in tab.items())
+            if iters:
+                chk = ' && '.join(
+                    f'iter_ok fl {pos} {m} {"true" if which == "class" else "false"} '
+                    f'{_strtab(tab, key if which == "class" else "")} '
+                    f'{("None" if key is None else "(Some " + _strtab(tab, key) + ")") if which == "target" else "None"} {_c_nats(ys)}'
+                    for pos, m, which, key, ys in iters)
+                ilits.append(f'(let fl := {flat_ops} in {chk})')
+            else:
+                ilits.append('true')
+        pre = PRE + (PRE_SHAPES if shapes else '') + ''.join(f'Definition {name} : str := {_coq_str(s)}.\n' for s, name in tab.items())
         exprs = ['[' + '; '.join(f'first_bad 0 {l} w2' for l in lits) + ']',
-                 '[' + '; '.join(qlits) + ']']
-        return lo, ck.coq_eval(IMPORTS, exprs, name=f'index{lo}', preamble=pre, timeout=900)
+                 '[' + '; '.join(qlits) + ']',
+                 '[' + '; '.join(ilits) + ']',
+                 '[' + '; '.join(q2lits) + ']']
+        imports = IMPORTS + (['SV.SM.IndexShapes', 'SV.Gen.IndexShapes_gen'] if shapes else [])
+        return lo, ck.coq_eval(imports, exprs, name=f'index{lo}', preamble=pre, timeout=900)
 
     with ThreadPoolExecutor(max_workers=6) as ex:
         results = list(ex.map(batch, range(0, len(cases), B)))
@@ -480,11 +569,39 @@ def corr(ck: Ck, escalate: bool = False) -> None:
         for i, r in enumerate(resq):
             if r is not True:
                 bad_q.append((lo + i, None))
+        for i, r in enumerate(parse_coq_nested(vals[2])):
+            if r is not True:
+                bad_i.append((lo + i, None))
+        for i, r in enumerate(parse_coq_nested(vals[3])):
+            if r is not True:
+                bad_q2.append((lo + i, None))
     ck.obligation('correspondence:index_ops', not bad,
                   f'{len(cases)} histories / {sum(len(c[1]) for c in cases)} steps: after every step error code, entity list, '
                   f'spawn, all key lists, by_class and by_target of model (vm_compute) vs implementation: {len(bad)} disagreements')
     ck.obligation('correspondence:search', not bad_q,
                   f'{len(cases)} final worlds x {len(QUERIES)} queries per map, model search vs VMF.search: {len(bad_q)} disagreements')
+    if shapes:
+        # diagnostic tie of the program semantics (sp_run): the generated program, run on the model state, predicts
+        # what the implementation returns — also for a shape that fails its obligations (up to empty sets that
+        # make_unique / iteration left behind in the implementation only)
+        ck.obligation('correspondence:search_as_written', not bad_q2,
+                      f'{len(cases)} final worlds x {len(QUERIES_SH)} queries per map, search_sh gen_search_shape '
+                      f'(the program read off VMF.search) vs VMF.search: {len(bad_q2)} disagreements')
+        if bad_q2:
+            ck.tie_broken.append('correspondence search as written (SM/IndexShapes.v sp_run vs VMF.search)')
+    if RAISED:
+        ck.obligation('correspondence:no_exception_escapes', False,
+                      f'{len(RAISED)} histories in which an exception other than KeyError/ValueError escaped the implementation '
+                      f'(the model has none), first: {RAISED[0][1]} in {RAISED[0][0]!r}'[:1500])
+        ck.tie_broken.append('correspondence: an exception escaped the implementation')
+    n_it = sum(len(c[3]) for c in cases)
+    ck.obligation('correspondence:index_iteration', not bad_i,
+                  f'{n_it} iterations of by_class[k] / by_target[k] with a mutating loop body: the entities the implementation '
+                  f'yields are a permutation of the snapshot followed by a permutation of the late additions, as computed '
+                  f'by the model (CopySet.__iter__ as [irun copyset_iter_today] for some order): {len(bad_i)} disagreements')
+    if bad_i:
+        ck.tie_broken.append('correspondence index iteration (CopySet.__iter__ trace vs SM/IndexShapes.v irun)')
+        ck.extra['iteration_disagreement'] = {'ops': cases[bad_i[0][0]][0], 'iterations': cases[bad_i[0][0]][3]}
     if bad:
         i, step = min(bad, key=lambda b: len(cases[b[0]][1]))
         ck.tie_broken.append('correspondence index operations (SM/IndexModel.v wstep vs real VMF/Entity objects)')
@@ -521,28 +638,83 @@ def exhaustive_short():
             yield base + [a, b]
 
 
+# ------------------------------------------------------------------------------------------------ source shapes
+SHAPE_IMPORTS = ['SV.SM.IndexModel', 'SV.SM.IndexShapes', 'SV.Gen.IndexShapes_gen']
+SHAPE_OBLIGATIONS = {
+    # Entity.__setitem__ (theorem c07_setitem_as_written: all five => the code is the model's set_item)
+    'setitem_lookup_is_case_insensitive': 'ss_match_ok gen_setitem_shape',
+    'setitem_previous_value_read_with_stored_spelling_before_store': 'ss_hit_read_ok gen_setitem_shape',
+    'setitem_overwrites_the_stored_spelling': 'ss_hit_store_ok gen_setitem_shape',
+    'setitem_else_path_previous_value_is_absent': 'ss_miss_read_ok gen_setitem_shape',
+    'setitem_else_path_stores_callers_key': 'ss_miss_store_ok gen_setitem_shape',
+    # VMF.search (theorem c07_search_as_written)
+    'search_returns_nothing_for_empty_name': 'sh_empty_returns gen_search_shape',
+    'search_folds_the_query': 'sh_folds gen_search_shape',
+    'search_strips_the_star': 'sh_star_strips gen_search_shape',
+    'search_star_branch_yields_exactly_the_prefix_scan': 'star_ok (sh_star gen_search_shape)',
+    'search_exact_branch_yields_name_and_class_matches': 'exact_ok (sh_exact gen_search_shape)',
+    'search_scans_a_snapshot_of_the_items': 'gen_search_scans_snapshot',
+    # CopySet.__iter__ (theorem c07_copyset_iteration_total)
+    'copyset_iter_never_iterates_the_live_set': 'iprog_never_live gen_copyset_iter',
+    'copyset_iter_is_snapshot_then_late_additions': 'iprog_is_today gen_copyset_iter',
+}
+
+
+def shape_obligations(ck: Ck) -> None:
+    res = ck.instance_obligations(SHAPE_IMPORTS, SHAPE_OBLIGATIONS, name='shapes')
+    for name, ok in res.items():
+        if not ok:
+            ck.tie_broken.append(f'source shape obligation {name} (Gen/IndexShapes_gen.v)')
+    ck.extra['source_shapes'] = ck.extra.get('translated', {}).get('IndexShapes_gen')
+
+
 # ------------------------------------------------------------------------------------------------ main
 def run(ck: Ck) -> None:
+    import time
+    t0 = time.time()
+    timing = ck.extra.setdefault('timing_s', {})
+
+    def lap(name: str) -> None:
+        nonlocal t0
+        timing[name] = round(time.time() - t0, 1)
+        t0 = time.time()
     ck.rule = ('histories over 2-3 real VMF objects with at most 6 entities each; names drawn from '
                "{a, A, Ab, aB, '', a1, worldspawn} (oracle stream also ß/SS/ss/İ), keys from classname/targetname in "
                'three spellings plus two other keys; operations create/new/copy/add/adds/remove/set/del/tuple-del/pop/'
-               'popitem/setdefault/update/clear/make_unique/export/parse/new map/iterate-while-mutating; a history is '
-               'non-trivial when it adds an entity to a map and afterwards mutates keys or removes; distinct by full history')
-    ck.trusted.append('hand-written model SM/IndexModel.v (tied by the operation-sequence correspondence and the census translator on every run)')
+               'popitem/setdefault/update/clear/make_unique/export/parse/new map/defaultdict read of an index (folded or '
+               'un-folded key)/iterate-while-mutating (loop bodies: set/del/remove/pop/clear/make_unique/create a like-named '
+               'entity = late addition); a history is non-trivial when it adds an entity to a map and afterwards mutates keys '
+               'or removes; distinct by full history')
+    ck.trusted.append('hand-written model SM/IndexModel.v (tied by the operation-sequence correspondence and the census translator on every run; '
+                      'Entity.__setitem__ lookup, VMF.search and CopySet.__iter__ additionally by translator-generated shapes proved equal to it)')
+    ck.trusted.append('translate/c07_index_shapes.py (fail-closed symbolic walk of Entity.__setitem__, VMF.search, CopySet.__iter__)')
     ck.assumptions += [
         'str.casefold leaves the empty string and the literals classname/targetname/worldspawn unchanged (hypotheses of every theorem; true of CPython)',
         'operations refer to Entity objects created with the same VMF as parent; vmf.add_ent(vmf.spawn) is outside the domain',
+        'str.casefold is idempotent and distributes over an appended decimal number, fold(b + str(i)) = fold(b) + str(i) (hypotheses of the search / make_unique termination theorems; proved for ASCII lower-casing)',
+        'nobody writes through the dict returned by the deprecated Entity.keys property (the only place, besides Entity.copy -> constructor, where _keys escapes: census obligation all_key_dict_escapes_known)',
         "the 'nodeid' keyvalue processing of __setitem__/__delitem__/add_ent/remove_ent (property C08) does not touch classname/targetname and is not modelled",
     ]
     ok_t = ck.translate('IndexSites_gen', c07_index_sites.translate)
     side = ck.extra.get('translated', {}).get('IndexSites_gen', {})
-    built = ck.build(['Props/C07.vo'] + (['SM/IndexCensus.vo'] if ok_t else []))
+    ok_s = ck.translate('IndexShapes_gen', c07_index_shapes.translate)
+    built = ck.build(['Props/C07.vo'] + (['SM/IndexCensus.vo'] if ok_t else []) + (['Gen/IndexShapes_gen.vo'] if ok_s else []))
+    lap('translate+build')
     if built:
         ck.theorems('Props/C07.v')
+        lap('print_assumptions')
+        if ok_s:
+            shape_obligations(ck)
+            lap('shape_obligations')
         if ok_t:
             obs = {
                 'all_key_writers_modelled': 'all_key_writers_modelled',
                 'all_index_writers_modelled': 'all_index_writers_modelled',
+                'all_key_dict_escapes_known': 'all_key_escapes_known',
+                'all_entity_list_writers_modelled': 'all_entity_list_writers_modelled',
+                'all_spawn_writers_modelled': 'all_spawn_writers_modelled',
+                'remove_ent_keeps_the_worldspawn_indexed': 'remove_ent_skips_worldspawn',
+                'remove_ent_keeps_an_entity_that_is_still_listed_indexed': 'remove_ent_skips_still_listed',
                 'every_modelled_index_writer_seen': 'every_modelled_writer_seen',
                 'entity_index_adds_guarded_by_membership': 'entity_adds_guarded',
                 'setitem_rekeys_by_class_remove_and_add': 'rekeys_balanced "Entity.__setitem__" "by_class"',
@@ -553,6 +725,7 @@ def run(ck: Ck) -> None:
             }
             for fn in sorted({s[0] for s in side.get('index_sites', [])}):
                 obs[f'index_keys_folded_in:{fn}'] = f'keys_folded_in "{fn}"'
+                obs[f'index_key_values_come_from_the_filed_entity_in:{fn}'] = f'key_sources_ok_in "{fn}"'
             res = ck.instance_obligations(['Coq.Lists.List', 'Coq.Strings.String', 'Coq.Bool.Bool', 'SV.Gen.IndexSites_gen', 'SV.SM.IndexCensus'],
                                           obs, name='census')
             for name, ok in res.items():
@@ -562,8 +735,11 @@ def run(ck: Ck) -> None:
         if side.get('digests') and side['digests'] != MODEL_DIGESTS:
             ck.notes.append(f'hand-modelled functions changed since the model was written ({side["digests"]}): thorough correspondence budget')
             ck.extra['digest_escalation'] = True
-        corr(ck, escalate=bool(ck.extra.get('digest_escalation')))
+        lap('census_obligations')
+        corr(ck, escalate=bool(ck.extra.get('digest_escalation')), shapes=ok_s)
+        lap('correspondence')
     search(ck)
+    lap('oracle_search')
     keys = {v['key'] for v in ck.violations}
     if keys:
         ck.explain('correspondence:')
